@@ -50,6 +50,9 @@ def check(rep, tier, seed):
                 for _ in range(6):
                     ops.append("ts:%.9g" % (r.below(1000000) / 1000000.0 * total / 48000.0))
                     ops.append("rf:2")
+                    # and at page granularity (lands on the last page boundary before the converted target)
+                    ops.append("tp:%.9g" % (r.below(1000000) / 1000000.0 * total / 48000.0))
+                    ops.append("rf:2")
             text = "case %d 1 %d %d 0 %s\nops %s\n" % (k, r.choice([0, 0, 7, 255]), k, fi["data"].hex(), " ".join(ops))
             cases.append((text, {"case": k, "Ns": fi["Ns"], "kinds": fi["kinds"], "bytes": len(fi["data"]),
                                  "targets": [targets[c0], targets[min(c0 + chunk, len(targets)) - 1]], "ops": " ".join(ops)[:200]}))
